@@ -15,7 +15,7 @@ class Opts:
         self.decoys = True
         self.multibyte = False
         self.eol = "\n"
-        self.layouts = ("own", "multi", "inline", "shared")   # tag-comment layouts allowed
+        self.layouts = ("own", "multi", "inline", "shared", "double")   # tag-comment layouts allowed
         self.forms = None           # restrict to form ids
         self.indent = True
         self.prose = True
@@ -199,6 +199,29 @@ class _G:
             form = self.pick_form("own", alist=alist)
         assert form is not None, "no comment form can hold these attributes"
         src, attrs = render_for(form, alist)
+        if layout == "double":
+            # two start tags in one comment (outer then inner, same line): the blocks nest and must be listed outer-first
+            if depth + 1 >= o.max_depth + 1 or self.nblocks >= o.max_blocks:
+                layout = "own"
+            else:
+                idx2 = self.nblocks
+                alist2 = self.attrs(idx2)
+                r2 = render_for(form, alist2)
+                if r2 is None:
+                    layout = "own"
+                else:
+                    self.nblocks += 1
+                    self.meta["nested"] += 1
+                    self.meta["max_depth"] = max(self.meta["max_depth"], depth + 2)
+                    self.tag_comment(form, [("start", src, attrs), ("start", r2[0], r2[1])], "double", depth)
+                    self.items(depth + 2)
+                    if r.random() < 0.5:
+                        self.tag_comment(form, [("end", fbm.END_TAG, None), ("end", fbm.END_TAG, None)], "double", depth)
+                    else:
+                        self.tag_comment(form, [("end", fbm.END_TAG, None)], "own", depth)
+                        self.code(depth)
+                        self.tag_comment(form, [("end", fbm.END_TAG, None)], "own", depth)
+                    return
         if layout == "shared":
             # start and end tag in the same comment: empty block
             self.tag_comment(form, [("start", src, attrs), ("end", fbm.END_TAG, None)], "shared", depth)
